@@ -914,6 +914,79 @@ impl Family for DenseCycles {
 }
 
 // ---------------------------------------------------------------------------------------------------------------
+// Nesting far beyond the 8 KiB of the growth families: the phases that walk nested constructs recursively (the
+// evaluation of a parenthesised #if condition, the visitors and patchers on nested type expressions) have no depth
+// limit. Through the real binary (its main thread has the stack a user gets).
+
+pub struct DeepNesting;
+/// (shape, levels, true = far beyond what the stack holds: the open finding)
+const DN_CASES: [(&str, usize, bool); 6] = [
+    // (measured with the 8 MiB stack of the main thread: the first overflows between 40 000 and 90 000 levels, the
+    // second - in the request builder, which runs even without a generator - between 15 000 and 20 000, the third
+    // between 10 000 and 20 000)
+    ("parenthesised-condition", 400_000, true),
+    ("nested-sequences", 160_000, true),
+    ("nested-conditionals", 200_000, true),
+    ("parenthesised-condition", 5_000, false),
+    ("nested-sequences", 5_000, false),
+    ("nested-conditionals", 5_000, false),
+];
+impl DeepNesting {
+    fn text(shape: &str, n: usize) -> String {
+        match shape {
+            "parenthesised-condition" => format!("module M\n#if {}A{}\nstruct S {{}}\n#endif\n", "(".repeat(n), ")".repeat(n)),
+            "nested-sequences" => format!("module M\nstruct S {{ a: {}int32{} }}\n", "Sequence<".repeat(n), ">".repeat(n)),
+            _ => format!("module M\n{}struct S {{}}\n{}", "#if A\n".repeat(n), "#endif\n".repeat(n)),
+        }
+    }
+}
+impl Family for DeepNesting {
+    fn name(&self) -> String {
+        "deep-nesting/parenthesised #if conditions, nested sequences and nested #if blocks (with the symbol defined) of 5 000 levels (10 .. 65 KiB: must end with a verdict) and of 400 000 / 160 000 / 200 000 levels (0.8 .. 2.5 MiB, ten times what the stack holds: the open finding), through the real binary".into()
+    }
+    fn len(&self) -> u64 {
+        DN_CASES.len() as u64
+    }
+    fn hang_secs(&self) -> f64 {
+        90.0
+    }
+    fn describe(&self, idx: u64) -> Value {
+        let (shape, n, _) = DN_CASES[idx as usize];
+        json!({"shape": shape, "levels": n, "bytes": Self::text(shape, n).len()})
+    }
+    fn run(&self, idx: u64) -> CaseOut {
+        let (shape, n, beyond) = DN_CASES[idx as usize];
+        let text = Self::text(shape, n);
+        let mut out = CaseOut::new(hash_str(&format!("c01dn{idx}")));
+        out.nontrivial = true;
+        let mut sc = Scenario::default();
+        sc.tree.push(("t.slice".into(), crate::proc::Node::File(text.clone().into_bytes())));
+        sc.argv = vec!["t.slice".into(), "-D".into(), "A".into()];
+        let obs = run(&sc, Duration::from_secs(20));
+        let desc = || format!("{shape}, {n} levels, {} bytes of input\nexit {:?} signal {:?} timed_out {}\nstderr {}", text.len(), obs.exit_code, obs.signal, obs.timed_out, truncate(&show_bytes(&obs.stderr), 300));
+        let overflow = obs.signal == Some(libc::SIGABRT) || obs.signal == Some(libc::SIGSEGV) || String::from_utf8_lossy(&obs.stderr).contains("stack overflow");
+        if beyond {
+            // one signature per shape, whatever the depth: the entry of known_findings.json names exactly this
+            if overflow {
+                out.violate(format!("c01/deep-nesting/{shape}/stack-overflow-beyond-100KiB"), desc());
+            } else if obs.timed_out || obs.panic_location().is_some() || obs.signal.is_some() || obs.exit_code != Some(0) {
+                out.violate(format!("c01/deep-nesting/{shape}-of-{n}-levels/no-clean-verdict"), desc());
+            }
+        } else if obs.timed_out {
+            out.violate(format!("c01/deep-nesting/{shape}-of-{n}-levels/no-verdict-within-20s"), desc());
+        } else if overflow {
+            out.violate(format!("c01/deep-nesting/{shape}-of-{n}-levels/stack-overflow"), desc());
+        } else if let Some(loc) = obs.panic_location() {
+            out.violate(format!("c01/deep-nesting/{shape}-of-{n}-levels/panic@{loc}"), desc());
+        } else if obs.signal.is_some() || obs.exit_code != Some(0) {
+            out.violate(format!("c01/deep-nesting/{shape}-of-{n}-levels/valid-program-not-compiled"), desc());
+        }
+        out.class = format!("{shape}:{n}:exit{:?}:signal{:?}", obs.exit_code, obs.signal);
+        out
+    }
+}
+
+// ---------------------------------------------------------------------------------------------------------------
 // Cycles whose members also break (or skirt) other rules, next to every kind of user: validators that walk through
 // types (key rules, compactness, ...) rely on the cycle check having run and having seen THESE members too.
 
@@ -1525,6 +1598,7 @@ pub fn families(tier: &str) -> Vec<Box<dyn Family>> {
         Box::new(OutputStreams),
         Box::new(RefusedFiles),
         Box::new(DenseCycles),
+        Box::new(DeepNesting),
         Box::new(CyclesWithUsers),
         Box::new(TokenSoups::new(if quick { 2 } else { 3 }, 0..10)),
         Box::new(TokenMutations::new()),
